@@ -6,6 +6,7 @@
 import Umya.Model.Reader
 import Umya.Spec.Sml
 import Umya.Lemmas.XmlEsc
+import Umya.Lemmas.Xml
 namespace Umya.Reader.Lemmas
 open Umya.XmlEsc Umya.Spec.Xml
 
